@@ -85,6 +85,8 @@ def from_json(j):
         for k, c in enumerate(j[1]):
             a[k] = from_json(c)
         return a
+    if t == "tuple":                   # a tuple-valued argument of a call statement
+        return tuple(from_json(c) for c in j[1])
     if t == "sum":
         return p.Sum(tuple(from_json(c) for c in j[1]))
     if t == "prod":
@@ -175,6 +177,8 @@ def show(j):
         return j[1]
     if t == "nparr":
         return "array([" + ", ".join(show(c) for c in j[1]) + "])"
+    if t == "tuple":
+        return "(" + ", ".join(show(c) for c in j[1]) + ",)"
     if t == "sum":
         return "(" + " + ".join(show(c) for c in j[1]) + ")"
     if t == "prod":
